@@ -408,6 +408,11 @@ pub fn child(prop: &str, tier: &str, only: Option<String>, out: &str) -> i32 {
     if prop == "C05" && run.only.is_none() {
         large_zero_width_witness(&u, &mut st);
     }
+    if prop == "C05" {
+        // the low-level readers: every operation sequence with boundary and extreme counts
+        let ops = crate::p_inputs::explore("C05", if thorough { 4 } else { 3 }, &run.only);
+        st.merge(ops);
+    }
     st.add(&format!("work_items[{}]", profile()), items.len() as u64);
     let types: std::collections::BTreeSet<&str> = items.iter().map(|i| i.e.name.as_str()).collect();
     st.add("target_types", types.len() as u64);
@@ -432,7 +437,13 @@ pub fn run(prop: &str, tier: &str, only: Option<String>) -> i32 {
         if let Some(k) = &only {
             cmd.arg("--only").arg(k);
         }
-        let status = cmd.status().expect("spawn child");
+        let mut ch = cmd.spawn().expect("spawn child");
+        let limit = std::time::Duration::from_secs(if tier == "thorough" { 6 * 3600 } else { 30 * 60 });
+        let Some(status) = bridge::rt::wait_with_timeout(&mut ch, limit) else {
+            println!("VIOLATION property=C05 replay=/verif/replays/C05-hang.json");
+            println!("  fingerprint: C05 hang: the sweep of profile {name} did not finish within {limit:?} and was killed");
+            return 1;
+        };
         match status.code() {
             Some(0) => {
                 let v: serde_json::Value = serde_json::from_str(&std::fs::read_to_string(&out).expect("child stats")).expect("child stats json");
